@@ -24,7 +24,7 @@ func zzWire(n int) []byte {
 	return b
 }
 
-var zzBases = []int{1, 1024, 4096, 8192}
+var zzBases = []int{1, 4096, 8192}
 
 // a size in a window around a buffer-boundary constant: base + d, d in [-1, +1]. Sizes decide
 // the shape of the heap (which node a byte lands in), so they are concrete choices: one path per
@@ -49,7 +49,7 @@ type zzPeek struct {
 // bytes at the model cursor, Len is buffered-minus-consumed, and every slice returned by Peek
 // since the last Release still holds the same bytes after each later operation.
 func ZZ_C13_H1() {
-	total := 3*8193 + 7
+	total := 4*8193 + 300
 	wire := zzWire(total)
 	nc := zz.NewNetConn(wire)
 	fragChoice := zz.Choose("frag", 4)
@@ -128,6 +128,19 @@ func ZZ_C13_H1() {
 				stable = false
 			}
 		}
+	}
+	// closing observation: what comes next on the connection is what the wire has at the cursor
+	fin, ferr := c.Peek(64)
+	if ferr != nil || !bytes.Equal(fin, wire[cursor:cursor+64]) {
+		allOK = false
+	}
+	for _, pk := range peeks {
+		if !bytes.Equal(pk.p, wire[pk.at:pk.at+len(pk.p)]) {
+			stable = false
+		}
+	}
+	if c.Len() != nc.Pos-cursor {
+		lenOK = false
 	}
 	zz.Cover("reached-assert", true)
 	zz.Cover("crossed-node-boundary", cursor > 4096)
